@@ -52,6 +52,7 @@ def main():
         name = patch.stem if patch.name != "patch.diff" else "seeded/" + patch.parent.name
         if not targets(patch):
             print(f"{name:55s} -   skipped (no target property / neutralised)", flush=True)
+            rows.append((name, "-", "neutralised"))
             continue
         wt = tempfile.mkdtemp(prefix="pyrefact-mut-")
         os.rmdir(wt)
@@ -83,7 +84,24 @@ def main():
             sh(f"git -C {REPO} worktree remove --force {wt}")
             shutil.rmtree(wt, ignore_errors=True)
     # restore evidence written by mutant runs is the caller's business (evidence is rewritten by the next real run)
-    missed = [r for r in rows if "CAUGHT" not in r[2]]
+    if "--write" in sys.argv:
+        out = []
+        for name, prop, what in rows:
+            src = VERIF / ((name + "/patch.diff") if name.startswith("seeded/") else f"mutants/{name}.diff")
+            note = ""
+            if name.startswith("seeded/"):
+                meta = src.parent / "meta.json"
+                if meta.exists():
+                    m = json.loads(meta.read_text())
+                    note = m.get("title", "")
+                    if str(m.get("status", "")).startswith("neutralised"):
+                        what = "neutralised by a later repair of the repository (see meta.json)"
+            else:
+                lines = src.read_text().splitlines()[:3] if src.exists() else []
+                note = next((l[2:] for l in lines if l.startswith("# ") and not l.startswith("# propert")), "")
+            out.append({"change": name, "property": prop, "result": what, "what": note})
+        (VERIF / "selftest_results.json").write_text(json.dumps({"repo_head": sh(f"git -C {REPO} rev-parse --short HEAD").stdout.strip(), "tier": tier, "rows": out}, indent=1) + "\n")
+    missed = [r for r in rows if "CAUGHT" not in r[2] and "neutralised" not in r[2]]
     print(f"\n{len(rows) - len(missed)}/{len(rows)} caught")
     return 1 if missed else 0
 
